@@ -96,7 +96,7 @@ EDGES = [
      "index comes from Ok(i) of a binary search over the vector this one was cloned from"),
     (r"^<mmap::GuestMemoryMmap<B> as guest_memory::GuestMemory>::find_region$", r"index", r"^Index::index\(\$1\.regions,\(slice::binary_search_by_key\(Deref::deref\(\$1\.regions\),\$2,.*\)@Err Sub 1\)\.0\)$", "I",
      "Err(x) of binary_search has x <= len and x > 0 dominates, so x-1 < len",
-     r"Gt\(slice::binary_search_by_key\(.*\)@Err,0\)"),
+     r"(Gt|Ne)\(slice::binary_search_by_key\(.*\)@Err,0\)"),
     (r"^<mmap::GuestMemoryMmap<B> as guest_memory::GuestMemory>::find_region::\{closure#1\}$", r"index", r"^Index::index\(\$1\.0\.regions,\$2\)$", "I",
      "index is Ok(x) of the binary search or the x-1 just checked"),
     # ------------------------------------------------------------------ mmap/unix.rs, mmap/xen.rs (management / environment)
